@@ -127,5 +127,6 @@ claim('C20', 'other', 'contract-based deductive verification of Kahn-style top_s
       'the work list never holds a gate twice, no KeyError/IndexError, CircuitIsCyclicalError only if no predecessor-free gate exists, and the completeness step (an unyielded gate has an unyielded predecessor), which rule R2 lifts to "every gate is yielded". '
       'dfs and bfs, both directions, from an arbitrary start sequence of gates or the default one, default hooks: every yielded gate lies in every set that contains the start gates and is closed under successors, the yielded set contains the start gates and is closed under successors '
       '(so it is exactly the reachable set), no gate is yielded twice, nothing raises, the circuit is untouched. '
-      'The hook discipline (enter/exit order, post-order exits, unvisited hook), the visiting order and check_circuit_has_no_cycles are bounded-only (all multigraph DAGs up to 3 nodes + random, all start sets, hooks that read the state map).',
+      'DFS hook discipline, both directions, arbitrary start gates (positional stack model, recording ghost hooks): every gate gets at most one enter hook and one exit hook, the exit hook after the enter hook, exit hooks fire in post-order (all successors have exited), and every entered gate has exited when the generator stops. '
+      'The unvisited hook, the other hooks, the BFS visiting order and check_circuit_has_no_cycles are bounded-only (all multigraph DAGs up to 3 nodes + random, all start sets, hooks that read the state map).',
       T_ASSUME + 'background lemmas on finite counting; rule R2; work lists modelled as bags / multisets with arbitrary pop order (sound for the stated clauses).', 'DESIGN.md §6 C20')
